@@ -134,7 +134,8 @@ end
   nga   number of addresses `0..nga-1` observed after every op
   ops   `a0,r1,t2,tx,...`    add / remove device, telegram to address n / to a non-group destination
 output: one token per op, joined by `,`:
-  add/remove  `ok` | `E<err>`   followed by `/` and `devices_by_group_address` of every address `0..nga-1`
+  add/remove  `ok` | `E<err>`   followed by `/`, the registered devices in iteration order, `/` and
+              `devices_by_group_address` of every address `0..nga-1`
               (`.`-joined ids, `-` for none, addresses separated by `;`)
   telegram    `c` + `.`-joined ids of the devices whose process() ran (`c-` for none)
 -/
@@ -174,7 +175,7 @@ def Err.render : Err → String
   | .valueError => "Evalue"
 
 def showState (s : Reg Nat Nat) (nga : Nat) : String :=
-  ";".intercalate ((List.range nga).map fun ga => showIds (byAddress s ga))
+  showIds s.devices ++ "/" ++ ";".intercalate ((List.range nga).map fun ga => showIds (byAddress s ga))
 
 def runShow (gas : Nat → List Nat) (nga : Nat) : Reg Nat Nat → List (Op Nat Nat) → List String
   | _, [] => []
